@@ -195,6 +195,17 @@ func TestC19_KeyInjective(t *testing.T) {
 			who := fmt.Sprintf("(%s,%s)", x.Name, x.H)
 			put("consensusState", host.FullConsensusStateKey(x.Name, x.H), "cons"+who)
 			put("consensusState(prefix store)", append([]byte("clients/"+x.Name+"/"), host.ConsensusStateKey(x.H)...), "cons"+who)
+			// the full key addresses the entry the client store wrote ("clients/{name}/" + the client-store key) and is read back as
+			// the chain name and height it was built for
+			full := host.FullConsensusStateKey(x.Name, x.H)
+			if want := append([]byte("clients/"+x.Name+"/"), host.ConsensusStateKey(x.H)...); !bytes.Equal(full, want) {
+				t.Fatalf("FullConsensusStateKey(%s, %s) = %q does not address the client store entry %q", x.Name, x.H, full, want)
+			}
+			name, inner, ok := host.ParseFullClientKey(full)
+			rn, rh, ok2 := host.ParseConsensusStateKey(inner)
+			if !ok || !ok2 || name != x.Name || rn != x.H.RevisionNumber || rh != x.H.RevisionHeight {
+				t.Fatalf("FullConsensusStateKey(%s, %s) is read back as (%q, %d-%d, ok=%v/%v)", x.Name, x.H, name, rn, rh, ok, ok2)
+			}
 			put("processedTime", host.FullClientKey(x.Name, tmtypes.ProcessedTimeKey(x.H)), "ptime"+who)
 			put("iterationKey", host.FullClientKey(x.Name, tmtypes.IterationKey(x.H)), "iter"+who)
 			put("clientState", host.FullClientStateKey(x.Name), "client("+x.Name+")")
